@@ -306,7 +306,19 @@ def parse_template(path, mutation=None):
     name = os.path.basename(path).rsplit('.', 1)[0]
     unit = Unit(name)
     unit.tmpl_path = path
-    lines = open(path).read().split('\n')
+    def expand(pth, depth=0):
+        out_l = []
+        for k, l in enumerate(open(pth).read().split('\n')):
+            st = l.strip()
+            if st.startswith('//@include '):
+                if depth > 5:
+                    raise ExtractError('include depth')
+                out_l += expand(os.path.join(ROOT, st[len('//@include '):].strip()), depth + 1)
+            else:
+                out_l.append((l, pth, k + 1))
+        return out_l
+    xlines = expand(path)
+    lines = [x[0] for x in xlines]
     grws = []
     out = []   # list of Piece or Func
     cur = None
@@ -314,7 +326,7 @@ def parse_template(path, mutation=None):
     i = 0
 
     def emit_passthru(l, ln):
-        out.append(Piece(l + '\n', 'tmpl', path, ln))
+        out.append(Piece(l + '\n', 'tmpl', xlines[ln - 1][1], xlines[ln - 1][2]))
 
     while i < len(lines):
         l = lines[i]
@@ -341,11 +353,6 @@ def parse_template(path, mutation=None):
                 if not os.path.exists(p):
                     raise ExtractError('source file %s missing' % p)
                 unit.sources[alias] = Source(p, open(p).read())
-                continue
-            if d.startswith('include '):
-                p = os.path.join(ROOT, d[8:].strip())
-                for k, il in enumerate(open(p).read().split('\n')):
-                    out.append(Piece(il + '\n', 'tmpl', p, k + 1))
                 continue
             if d.startswith('grw '):
                 rule, rest = d[4:].split(None, 1)
@@ -381,7 +388,7 @@ def parse_template(path, mutation=None):
             if d.startswith('pin '):
                 parts = [x.strip() for x in d[4:].split(' :: ')]
                 unit.pins.append(dict(alias=parts[0], container='' if parts[1] == '-' else parts[1], name=parts[2],
-                                      sha=parts[3] if len(parts) > 3 else '', line=ln,
+                                      sha=parts[3] if len(parts) > 3 else '', line=xlines[ln - 1][2], tfile=xlines[ln - 1][1],
                                       tags=parts[4].split() if len(parts) > 4 else []))
                 continue
             if d.startswith('mutant '):
@@ -393,7 +400,7 @@ def parse_template(path, mutation=None):
                 parts = [x.strip() for x in d[5:].split(' :: ')]
                 unit.glue.append(dict(id=parts[0], alias=parts[1], container='' if parts[2] == '-' else parts[2],
                                       fn=parts[3], anchor=parse_regex(parts[4])[0], lines=int(parts[5]),
-                                      sha=parts[6] if len(parts) > 6 else '', line=ln))
+                                      sha=parts[6] if len(parts) > 6 else '', line=xlines[ln - 1][2], tfile=xlines[ln - 1][1]))
                 continue
             if d.startswith('#') or not d:
                 continue
